@@ -234,6 +234,7 @@ func check(c Case) vk.Verdict {
 		v.Classes = append(v.Classes, "allowed")
 		if acao == "" && !(c.Method == "OPTIONS" && !preflight) {
 			v.Classes = append(v.Classes, "info:allowed-without-acao")
+			vk.Rec.Extra("example_allowed_without_acao", ctx)
 		}
 	} else {
 		v.Classes = append(v.Classes, "denied")
@@ -378,11 +379,16 @@ var propRaw = vk.Register(&vk.Prop[RawCase]{Property: property, Name: "raworigin
 			rc.Entries = append(rc.Entries, Entry{Scheme: rapid.SampledFrom([]string{"http", "https"}).Draw(t, "s"), Host: rapid.SampledFrom(domains[:3]).Draw(t, "h"),
 				Port: rapid.SampledFrom([]string{"", "8080"}).Draw(t, "p"), Wild: rapid.Bool().Draw(t, "w")})
 		}
-		frag := rapid.SampledFrom([]string{"https://", "http://", "example.com", ".example.com", "evil.com", ":8080", "/", "?", "#", "@", ".", "*", "sub", "ex.org", "a", ":", "//", " "})
-		n := rapid.IntRange(1, 7).Draw(t, "n")
+		rc.Origin = rapid.SampledFrom([]string{"http://", "https://", "HTTPS://", "ftp://"}).Draw(t, "scheme")
+		lab := rapid.SampledFrom([]string{"example", "com", "evil", "sub", "ex", "org", "a", "x-", "example.com", "com.evil", "xexample", "EXAMPLE", "a.example", "0"})
+		n := rapid.IntRange(1, 5).Draw(t, "n")
 		for i := 0; i < n; i++ {
-			rc.Origin += frag.Draw(t, "f")
+			if i > 0 {
+				rc.Origin += rapid.SampledFrom([]string{".", ".", ".", "", "-"}).Draw(t, "dot")
+			}
+			rc.Origin += lab.Draw(t, "label")
 		}
+		rc.Origin += rapid.SampledFrom([]string{"", "", ":8080", ":80", ":x", ":80/", "/"}).Draw(t, "port")
 		return rc
 	}})
 
